@@ -240,7 +240,7 @@ theorem release_safe (fd : Fd) (held : List Fd) : Safe (Disc b) (Sys.release fd 
 
 theorem dup_safe (fd : Fd) : Safe (Disc b) (Sys.dup fd) FdOk := by
   unfold Sys.dup
-  apply Safe.mbind (Q' := fun r => ∀ x, r = .ok x → x.sane) (Safe.mcall trivial ?_)
+  apply Safe.mbind (Q' := fun r => ∀ x, r = .ok x → x.sane) (Safe.mcall (D := Disc b) (c := .dup fd 3) (show Disc b (.dup fd 3) from rfl) ?_)
   · intro r hr
     split
     · intro fd h; cases h; exact hr _ rfl
